@@ -1,3 +1,74 @@
-From PW Require Import Base Hints HintsGen.
-Theorem placeholder : True. Proof. exact I. Qed.
-Print Assumptions placeholder.
+(* C04 -- an accepted typed connection is sound, and comparing hints never crashes.
+   All statements are about HintsGen.more_specific, the function REGENERATED from
+   /repo/pyiron_workflow/type_hinting.py on every run.  Only Theorem / exact / Print
+   Assumptions live here; proofs are in HintsProofs.v. *)
+From PW Require Import Base Hints HintsGen HintsConn HintsProofs.
+
+(* Comparing any two hint objects terminates with a yes/no answer (no RecursionError):
+   for EVERY pair, not only well-formed ones, fuel above the joint size suffices. *)
+Theorem C04_total : forall h o fuel, hsize h + hsize o < fuel ->
+  exists b, more_specific fuel h o = Some b.
+Proof. intros h o fuel H. exact (ms_total fuel h o H). Qed.
+Print Assumptions C04_total.
+
+(* Every hint of the grammar is compatible with itself. *)
+Theorem C04_refl : forall h, wf h = true -> forall fuel, 2 * hsize h < fuel ->
+  more_specific fuel h h = Some true.
+Proof. exact ms_refl. Qed.
+Print Assumptions C04_refl.
+
+(* Soundness, partial: for the grammar [wf] (classes/subclasses, None, both union
+   spellings, Literal, Annotated, list/set/dict/fixed tuple/type) and targets without
+   tuple[()].  Missing from the full statement: variadic tuples and Callable (checked by
+   correspondence + oracle only) and tuple[()] targets (refuted below, known finding S3). *)
+Theorem C04_sound_partial : forall fuel h o,
+  wf h = true -> wf o = true -> no_empty_tuple o = true ->
+  more_specific fuel h o = Some true ->
+  forall v, admits h v = true -> admits o v = true.
+Proof. exact ms_sound. Qed.
+Print Assumptions C04_sound_partial.
+
+(* ... lifted to what the library accepts: a data connection, or a macro value link,
+   between two hinted channels whose receiving side is strict. *)
+Theorem C04_connect_sound_partial : forall fuel out inp ho hi,
+  d_hint out = Some ho -> d_hint inp = Some hi -> d_strict inp = true ->
+  wf ho = true -> wf hi = true -> no_empty_tuple hi = true ->
+  valid_connection fuel out inp = Some true ->
+  forall v, admits ho v = true -> admits hi v = true.
+Proof.
+  intros fuel out inp ho hi Eo Ei Es Wo Wi Ni. unfold valid_connection. rewrite Eo, Ei, Es.
+  exact (ms_sound fuel ho hi Wo Wi Ni).
+Qed.
+Print Assumptions C04_connect_sound_partial.
+
+Theorem C04_link_sound_partial : forall fuel snd rcv hs hr,
+  d_hint snd = Some hs -> d_hint rcv = Some hr -> d_strict rcv = true ->
+  wf hs = true -> wf hr = true -> no_empty_tuple hr = true ->
+  receiver_ok fuel snd rcv = Some true ->
+  forall v, admits hs v = true -> admits hr v = true.
+Proof.
+  intros fuel snd rcv hs hr Es Er Est Ws Wr Nr. unfold receiver_ok. rewrite Es, Er, Est.
+  exact (ms_sound fuel hs hr Ws Wr Nr).
+Qed.
+Print Assumptions C04_link_sound_partial.
+
+(* The full soundness statement is FALSE of the faithful model (and of the code):
+   tuple[int] is accepted for a tuple[()] target; (1,) separates them.  Known finding S3. *)
+Theorem C04_sound_refuted_empty_tuple : exists h o v,
+  wf h = true /\ wf o = true /\ more_specific 10 h o = Some true /\
+  admits h v = true /\ admits o v = false.
+Proof.
+  exists (HGen TupleC [HCls Int]), (HGen TupleC []), (VTuple [VInt 1]).
+  vm_compute. repeat split; reflexivity.
+Qed.
+Print Assumptions C04_sound_refuted_empty_tuple.
+
+(* Non-vacuity: concrete non-trivial instances meet the hypotheses of the theorems. *)
+Example C04_hyps_hold :
+  let h := HGen DictC [HCls Str; HNew [HCls Bool; HGen ListC [HCls UB]]] in
+  let o := HOld [HGen DictC [HCls Str; HOld [HCls Int; HGen ListC [HCls UA]; HCls NoneT]]; HCls NoneT] in
+  wf h = true /\ wf o = true /\ no_empty_tuple o = true /\
+  more_specific 20 h o = Some true /\
+  admits h (VDict [(VStr "k", VList [VObj UB])]) = true /\
+  more_specific 20 o h = Some false.
+Proof. vm_compute. repeat split; reflexivity. Qed.
